@@ -1,0 +1,83 @@
+//go:build verif
+
+package middleware
+
+// Contracts for gcv (comment-only file; compiled only with -tags verif, and then to nothing).
+
+//@ stable storedSessionLoader.*
+//@ nonnil storedSessionLoader.store storedSessionLoader.sessionRefresher storedSessionLoader.sessionValidator
+//@ stable jwtSessionLoader.*
+
+// ------------------------------------------------------------------ C01: the three session loaders
+// scope.Session is written only by these closures (scan in pkg/apis/middleware), and only with the
+// result of a successful credential check.
+
+//@ func (*storedSessionLoader).loadSession$1
+//@ prop C01 C13
+//@ at call ServeHTTP#0 assert[keeps-earlier-session] scope.Session == old(scope.Session) && scope.Session != nil
+//@ at call ServeHTTP#1 assert[session-is-validated-load] scope.Session == ret0(getValidatedSession)
+//@ ensures[next-always-called] called(ServeHTTP)
+//@ prop C12 C13
+//@ ensures[failed-load-clears] called(getValidatedSession) && ret1(getValidatedSession) != nil
+//@     && !errors.Is(ret1(getValidatedSession), http.ErrNoCookie) ==> called(Clear)
+
+//@ func (*storedSessionLoader).getValidatedSession
+//@ prop C01 C12 C13
+//@ ensures[error-means-no-session] ret1 != nil ==> ret0 == nil
+//@ ensures[session-only-from-store-and-refresh-check] ret0 != nil ==> ret0 == ret0(Load) && ret1(Load) == nil
+//@     && called(refreshSessionIfNeeded) && ret(refreshSessionIfNeeded) == nil && arg(refreshSessionIfNeeded, 3) == ret0
+
+//@ func (*jwtSessionLoader).loadSession$1
+//@ prop C01
+//@ at call ServeHTTP#0 assert[keeps-earlier-session] scope.Session == old(scope.Session) && scope.Session != nil
+//@ at call ServeHTTP#1 assert[session-is-verified-token] scope.Session == ret0(getJwtSession)
+//@ ensures[next-always-called] called(ServeHTTP)
+
+//@ func (*jwtSessionLoader).getJwtSession
+//@ prop C01 C04
+//@ ensures[session-only-from-loader-success] ret0 != nil ==> called(loader) && ret1(loader) == nil && ret0 == ret0(loader)
+//@     && arg(loader, 1) == ret0(findTokenFromHeader) && ret1(findTokenFromHeader) == nil
+
+//@ func loadBasicAuthSession$2
+//@ prop C01
+//@ at call ServeHTTP#0 assert[keeps-earlier-session] scope.Session == old(scope.Session) && scope.Session != nil
+//@ at call ServeHTTP#1 assert[session-is-basic-auth] scope.Session == ret0(getSession)
+//@ ensures[next-always-called] called(ServeHTTP)
+
+//@ func getBasicSession
+//@ prop C01
+//@ ensures[only-validated-credentials] ret0 != nil ==> called(Validate) && ret(Validate)
+//@     && arg(Validate, 0) == ret0(findBasicCredentialsFromHeader) && arg(Validate, 1) == ret1(findBasicCredentialsFromHeader)
+//@     && ret2(findBasicCredentialsFromHeader) == nil
+//@ ensures[user-is-validated-user] ret0 != nil ==> ret0.User == arg(Validate, 0) && ret0.Email == ""
+
+// ------------------------------------------------------------------ C12 / C13 / C09: refresh and re-validation
+//@ func needsRefresh
+//@ prop C12
+//@ ensures[threshold] result <==> refreshPeriod > 0 && ret(Age) > refreshPeriod
+
+//@ func (*storedSessionLoader).validateSession
+//@ prop C12
+//@ ensures[valid-iff-unexpired-and-provider-validates] ret0 == nil <==> !ret(IsExpired) && called(sessionValidator) && ret(sessionValidator)
+//@ at call sessionValidator assert[validates-this-session] arg(sessionValidator, 1) == session
+
+//@ func (*storedSessionLoader).refreshSession
+//@ prop C12 C09 C13 C14
+//@ at call Save assert[restamped-before-save] called(CreatedAtNow) && arg(CreatedAtNow, 0) == session && arg(Save, 2) == session
+//@     && (ret0(sessionRefresher) || errors.Is(ret1(sessionRefresher), providers.ErrNotImplemented))
+//@ ensures[refresher-error-extends-nothing] ret1(sessionRefresher) != nil && !errors.Is(ret1(sessionRefresher), providers.ErrNotImplemented)
+//@     ==> ret0 != nil && !called(Save) && !called(CreatedAtNow)
+//@ ensures[not-refreshed-not-restamped] !ret0(sessionRefresher) && !errors.Is(ret1(sessionRefresher), providers.ErrNotImplemented)
+//@     ==> !called(Save) && !called(CreatedAtNow)
+//@ ensures[save-error-propagates] called(Save) && ret(Save) != nil ==> ret0 != nil
+//@ ensures[refreshed-is-saved] ret0 == nil && ret0(sessionRefresher) ==> called(Save) && ret(Save) == nil
+
+//@ func (*storedSessionLoader).refreshSessionIfNeeded
+//@ prop C12 C13
+//@ at call refreshSession assert[refresh-only-under-lock-after-reload-and-recheck] lockObtained
+//@     && called(Load) && ret1(Load) == nil && ret0(Load) != nil && ret(needsRefresh#1) && arg(refreshSession, 3) == session
+//@ ensures[stale-never-honoured-unchecked] ret0 == nil ==> !ret(needsRefresh#0)
+//@     || (called(Load) && ret1(Load) == nil && ret0(Load) != nil && !ret(needsRefresh#1))
+//@     || (called(validateSession) && ret(validateSession) == nil && arg(validateSession, 2) == session)
+//@ ensures[reload-failure-is-error] called(Load) && (ret1(Load) != nil || ret0(Load) == nil) ==> ret0 != nil
+//@ ensures[validation-follows-refresh-attempt] called(refreshSession) ==> called(validateSession) && ret0 == ret(validateSession)
